@@ -1,9 +1,100 @@
 import PyamgV.Driver.Util
-/-! Driver ops for property C19 (line protocol). Op names are prefixed `c19_`. -/
+import PyamgV.Model.C19Utils
+/-! Driver ops for property C19 (line protocol). Op names are prefixed `c19_`.
+Scalar modes: `r` = `Rat`, `c` = Gaussian rationals.  Compressed matrices are sent as
+`n ap aj ax` (`n` major slices); dense matrices as `rows cols flat` (row major). -/
 namespace PyamgV.Drv.C19
-open PyamgV PyamgV.Drv
+open PyamgV PyamgV.Drv PyamgV.C19
+
+def parsePat (s : String) : Pat := if s = "none" then #[] else (s.splitOn ";").toArray.map parseNats
+def showBools (l : List Bool) : String := sh (l.map fun b => if b then "1" else "0")
+
+/-- everything the ops need from a scalar type -/
+structure Sc (α : Type) where
+  parse : String → Array α
+  shw : Array α → String
+  conj : α → α
+  nsq : α → Rat
+  nsqA : α → α
+  sqrt? : α → Option α
+
+def scR : Sc Rat := ⟨parseRats, showRats, id, nsqQ, nsqQ, sqrtAbsQ?⟩
+def scC : Sc CRat := ⟨parseCRats, showCRats, CRat.conj, CRat.normSq, cnsq, csqrt?⟩
+
+section
+variable {α : Type} [Add α] [Sub α] [Mul α] [Div α] [OfNat α 0] [OfNat α 1] [DecidableEq α]
+
+def showRows (s : Sc α) (rows : Rows α) : String :=
+  showNats (ptrOf rows).toArray ++ ";" ++ showNats (idxOf rows).toArray ++ ";" ++ s.shw (dataOf rows).toArray
+
+def diagOp (normeq : String) (csr : Bool) (s : Sc α) (nmaj nmin : Nat) (rows : Rows α) : List α :=
+  if normeq = "0" then diagOf (min nmaj nmin) rows
+  else if (normeq = "1") = csr then normMinor s.nsqA nmin rows
+  else normMajor s.nsqA nmin rows
+
+def run (s : Sc α) : List String → Option String
+  | ["scale", fmt, which, n, ap, aj, ax, v] =>
+    let rows := rowsOf (nat n) (parseNats ap) (parseNats aj) (s.parse ax)
+    let out := if (fmt = "csr") = (which = "rows") then scaleMajor (s.parse v) rows else scaleMinor (s.parse v) rows
+    some (s.shw (dataOf out).toArray)
+  | ["bscale", which, nb, R, C, ap, aj, ax, v] =>
+    let b := bRowsOf (nat nb) (nat R * nat C) (parseNats ap) (parseNats aj) (s.parse ax)
+    let out := if which = "rows" then bsrScaleRows (nat R) (nat C) (s.parse v) b else bsrScaleCols (nat R) (nat C) (s.parse v) b
+    some (s.shw (bDataOf out).toArray)
+  | ["diag", fmt, normeq, inv, nmaj, nmin, ap, aj, ax] =>
+    let rows := rowsOf (nat nmaj) (parseNats ap) (parseNats aj) (s.parse ax)
+    let d := diagOp normeq (fmt = "csr") s (nat nmaj) (nat nmin) rows
+    some (s.shw (if inv = "1" then invZero d else d).toArray)
+  | ["bdiag", normeq, inv, nb, mb, R, C, ap, aj, ax] =>
+    let b := bRowsOf (nat nb) (nat R * nat C) (parseNats ap) (parseNats aj) (s.parse ax)
+    let d := diagOp normeq true s (nat nb * nat R) (nat mb * nat C) (bsrExpand (nat R) (nat C) b)
+    some (s.shw (if inv = "1" then invZero d else d).toArray)
+  | ["symresc", n, ap, aj, ax] =>
+    match symRescale s.sqrt? (nat n) (rowsOf (nat n) (parseNats ap) (parseNats aj) (s.parse ax)) with
+    | none => some "noroot"
+    | some (sq, sinv, rows) => some (s.shw sq.toArray ++ ";" ++ s.shw sinv.toArray ++ ";" ++ s.shw (dataOf rows).toArray)
+  | ["bsymresc", nb, R, ap, aj, ax] =>
+    let b := bRowsOf (nat nb) (nat R * nat R) (parseNats ap) (parseNats aj) (s.parse ax)
+    match symRescale s.sqrt? (nat nb * nat R) (bsrExpand (nat R) (nat R) b) with
+    | none => some "noroot"
+    | some (sq, sinv, _) =>
+      let out := bsrScaleCols (nat R) (nat R) sinv.toArray (bsrScaleRows (nat R) (nat R) sinv.toArray b)
+      some (s.shw sq.toArray ++ ";" ++ s.shw sinv.toArray ++ ";" ++ s.shw (bDataOf out).toArray)
+  | ["filter", theta, n, ap, aj, ax] =>
+    some (showRows s (filterRowsMax s.nsq (parseRat theta) (rowsOf (nat n) (parseNats ap) (parseNats aj) (s.parse ax))))
+  | ["filterdiag", theta, lump, n, ap, aj, ax] =>
+    some (showRows s (filterRowsDiag s.nsq (parseRat theta) (lump = "1") (rowsOf (nat n) (parseNats ap) (parseNats aj) (s.parse ax))))
+  | ["trunc", k, n, ap, aj, ax] =>
+    some (showRows s (truncateRows s.nsq (nat k) (rowsOf (nat n) (parseNats ap) (parseNats aj) (s.parse ax))))
+  | ["blockdiag", bs, inv, n, a] =>
+    let A := Mat.unflat (nat n) (nat n) (s.parse a)
+    if inv = "1" then
+      match blockDiagInv s.conj (nat bs) A with
+      | none => some "fail"
+      | some bl => some (s.shw (bl.foldl (fun acc M => acc ++ M.flat) #[]))
+    else some (s.shw ((blockDiag (nat bs) A).foldl (fun acc M => acc ++ M.flat) #[]))
+  | ["sbi", bs, n, a] =>
+    match scaleBlockInverse s.conj (nat bs) (Mat.unflat (nat n) (nat n) (s.parse a)) with
+    | none => some "fail"
+    | some (DA, D) => some (s.shw DA.flat ++ ";" ++ s.shw D.flat)
+  | ["pinv", n, a] =>
+    match Mat.pinv s.conj (Mat.unflat (nat n) (nat n) (s.parse a)) with
+    | none => some "fail"
+    | some X => some (s.shw X.flat)
+  | ["filterop", rpb, cpb, nd, pat, n, m, a, b, bf] =>
+    let (F, ok) := filterOp s.conj (nat rpb) (nat cpb) (nat nd) (parsePat pat)
+      (Mat.unflat (nat n) (nat m) (s.parse a)) (Mat.unflat (nat m) (nat nd) (s.parse b)) (Mat.unflat (nat n) (nat nd) (s.parse bf))
+    -- exact self-check of the constraint on the flagged block rows: (F B - Bf) = 0 there
+    let E := Mat.sub (Mat.mul F (Mat.unflat (nat m) (nat nd) (s.parse b))) (Mat.unflat (nat n) (nat nd) (s.parse bf))
+    let good := (List.range (nat n)).all fun i =>
+      !(ok.getD (i / nat rpb) false) || (List.range (nat nd)).all fun k => decide (E.get i k = 0)
+    some (s.shw F.flat ++ ";" ++ showBools ok ++ ";" ++ (if good then "constraint-ok" else "constraint-broken"))
+  | _ => none
+end
 
 def handle : List String → Option String
+  | op :: "r" :: rest => if op.startsWith "c19_" then run scR ((op.drop 4).toString :: rest) else none
+  | op :: "c" :: rest => if op.startsWith "c19_" then run scC ((op.drop 4).toString :: rest) else none
   | _ => none
 
 end PyamgV.Drv.C19
